@@ -16,6 +16,7 @@ TRUSTED = ('R model Ninja/NinjaRead.v (lexer, $in/$out escaping) + Ninja/NinjaMa
            '(disagreement = broken obligation); the Ninja half is further cross-checked by agreement with real GNU Make on the same projects (C06 machinery)',
            'R model Shell/Sh.v validated against /bin/dash (see C01); the shell layer of the oracle is the real dash')
 SYN = {'output': 0, 'input': 1, 'shell': 2, 'clean': 3}
+_CWD = None      # scratch directory in which evaluated command lines are run (a broken tree may emit redirections)
 
 
 def gen_nfrag(rng):
@@ -185,7 +186,7 @@ def stage_oracle_ninja(rep, rng, n):
             try:
                 m = ninjaparse.parse(o.getvalue())
                 cmd = m.command('o ut.o' if channel == 'flags' else 'out')
-                rc, recs, err = shtools.dash_run(cmd)
+                rc, recs, err = shtools.dash_run(cmd, cwd=_CWD)
                 if rc == 0 and len(recs) == 1:
                     got = recs[0]['argv']
             except ninjaparse.NinjaDisagreement as e:
@@ -425,7 +426,7 @@ def stage_manifest_theorems(rep, rng, n):
         if cmd is None:
             err = 'command_of fails on the written manifest'
         else:
-            rc, recs, err = shtools.dash_run(cmd)
+            rc, recs, err = shtools.dash_run(cmd, cwd=_CWD)
             if rc == 0 and len(recs) == 1:
                 got = recs[0]['argv']
         if got != expect:
@@ -525,6 +526,17 @@ def described_steps(rep, rng, idx):
 
 
 def run(rep):
+    global _CWD
+    import shutil
+    _CWD = common.scratch('c02sh')
+    try:
+        _run(rep)
+    finally:
+        shutil.rmtree(_CWD, ignore_errors=True)
+        _CWD = None
+
+
+def _run(rep):
     rng = random.Random(rep.seed)
     thorough = rep.tier == 'thorough'
     rep.proof_stage(coqchk=thorough)
